@@ -42,6 +42,12 @@ import (
 	"go.minekube.com/common/minecraft/component"
 	"go.minekube.com/gate/pkg/edition/java/netmc"
 	"go.minekube.com/gate/pkg/edition/java/proto/packet"
+	"go.minekube.com/gate/pkg/edition/java/profile"
+	"go.minekube.com/gate/pkg/edition/java/config"
+	cfgpacket "go.minekube.com/gate/pkg/edition/java/proto/packet/config"
+	"go.minekube.com/gate/pkg/edition/java/proxy"
+	"go.minekube.com/gate/pkg/util/netutil"
+	"go.minekube.com/gate/pkg/util/uuid"
 	"go.minekube.com/gate/pkg/edition/java/proto/packet/chat"
 	"go.minekube.com/gate/pkg/edition/java/proto/state"
 	"go.minekube.com/gate/pkg/edition/java/proxy/verifh/lib"
@@ -49,6 +55,8 @@ import (
 )
 
 const kaMagic = uint64(0x5EED) << 48
+
+var startsSeen, writeErrs int64
 
 type nopHandler struct{}
 
@@ -67,6 +75,7 @@ type wrec struct {
 }
 
 type phase struct {
+	Real       bool  // entered through the real connectedPlayer.switchToConfigState
 	CfgRet     int64 // SetState(Config) returned
 	MarkCall   int64 // finish marker write called
 	MarkSeq    int
@@ -79,10 +88,11 @@ var playRe = regexp.MustCompile(`V(\d+):(\d+);`)
 type item struct {
 	play   bool
 	marker bool
+	start  bool // StartUpdate: the client enters the configuration phase when it reads this
 	w, seq int
 }
 
-func parseStream(b []byte) (items []item, ok bool) {
+func parseStream(b []byte, startID int) (items []item, ok bool) {
 	for len(b) > 0 {
 		l, n := binary.Uvarint(b)
 		if n <= 0 || int(l) > len(b)-n {
@@ -90,6 +100,10 @@ func parseStream(b []byte) (items []item, ok bool) {
 		}
 		body := b[n : n+int(l)]
 		b = b[n+int(l):]
+		if len(body) == 1 && startID >= 0 && int(body[0]) == startID {
+			items = append(items, item{start: true})
+			continue
+		}
 		if m := playRe.FindSubmatch(body); m != nil {
 			w, _ := strconv.Atoi(string(m[1]))
 			s, _ := strconv.Atoi(string(m[2]))
@@ -119,6 +133,12 @@ func TestC14(t *testing.T) {
 	n := r.N(1500, 60000)
 	protos := []proto.Protocol{764, 765, 766, 767, 768, 769, 770, 771, 772, 773, 774, 775}
 	var heldTotal, directTotal, racingTotal, overflowCases, markersSeen int64
+	var realSwitchCases, realSwitches int64
+	pcfg := config.DefaultConfig
+	px, perr := proxy.New(proxy.Options{Config: &pcfg})
+	if perr != nil {
+		t.Fatalf("proxy.New: %v", perr)
+	}
 	sigs := map[string]struct{}{}
 
 	for ci := 0; ci < n; ci++ {
@@ -128,7 +148,12 @@ func TestC14(t *testing.T) {
 		perWriter := 4 + rng.Intn(20)
 		overflow := ci%50 == 49
 		stall := rng.Intn(3) == 0
-		desc := map[string]any{"protocol": int(pv), "writers": nw, "toggles": toggles, "per_writer": perWriter, "overflow": overflow, "stall": stall}
+		// realSwitch: the configuration phase is entered through the real
+		// connectedPlayer.switchToConfigState (what a backend's StartUpdate or a server switch
+		// triggers) and left through SetOutboundState(Play) (what the client config handler does),
+		// instead of the plain SetState(Config)/SetState(Play) of the login path
+		realSwitch := !overflow && rng.Intn(2) == 0
+		desc := map[string]any{"protocol": int(pv), "writers": nw, "toggles": toggles, "per_writer": perWriter, "overflow": overflow, "stall": stall, "real_switch": realSwitch}
 		r.LogCase(desc)
 
 		proxyEnd, client := lib.Pipe()
@@ -147,6 +172,17 @@ func TestC14(t *testing.T) {
 		conn, _ := netmc.NewMinecraftConn(context.Background(), proxyEnd, proto.ServerBound, 30*time.Second, 30*time.Second, -1, nil)
 		conn.SetProtocol(pv)
 		conn.SetActiveSessionHandler(state.Play, nopHandler{})
+		startID := -1
+		var pl *proxy.VerifC11Player
+		if realSwitch {
+			realSwitchCases++
+			if id, ok := state.Play.ClientBound.ProtocolRegistry(pv).PacketID(&cfgpacket.StartUpdate{}); ok {
+				startID = int(id)
+			}
+			name := fmt.Sprintf("c14_%d", ci)
+			pl = proxy.VerifC11NewPlayer(px, conn, &profile.GameProfile{ID: uuid.OfflinePlayerUUID(name), Name: name},
+				netutil.NewAddr("play.example.com:25565", "tcp"), false, false)
+		}
 		var recvBuf bytes.Buffer
 		recvDone := make(chan struct{})
 		go func() { _, _ = io.Copy(&recvBuf, client); close(recvDone) }()
@@ -197,7 +233,7 @@ func TestC14(t *testing.T) {
 			_ = conn.Close()
 			<-recvDone
 			if total <= 1024 {
-				checkStream(r, desc, recvBuf.Bytes(), recs, phases, &heldTotal, &directTotal, &racingTotal, &markersSeen)
+				checkStream(r, desc, startID, recvBuf.Bytes(), recs, phases, &heldTotal, &directTotal, &racingTotal, &markersSeen)
 			}
 			r.Distinct(fmt.Sprintf("overflow total=%d", total))
 			continue
@@ -254,15 +290,24 @@ func TestC14(t *testing.T) {
 				for y := crng.Intn(40); y > 0; y-- {
 					runtime.Gosched()
 				}
-				conn.SetState(state.Config)
-				ph := phase{CfgRet: clock.Add(1), MarkSeq: tg}
+				if realSwitch {
+					pl.SwitchToConfigState()
+					atomic.AddInt64(&realSwitches, 1)
+				} else {
+					conn.SetState(state.Config)
+				}
+				ph := phase{CfgRet: clock.Add(1), MarkSeq: tg, Real: realSwitch}
 				for y := crng.Intn(60); y > 0; y-- {
 					runtime.Gosched()
 				}
 				ph.MarkCall = clock.Add(1)
 				_ = conn.WritePacket(&packet.KeepAlive{RandomID: kaID(0xFFFF, tg)})
 				ph.PlayCall = clock.Add(1)
-				conn.SetState(state.Play)
+				if realSwitch {
+					conn.SetOutboundState(state.Play)
+				} else {
+					conn.SetState(state.Play)
+				}
 				ph.PlayRet = clock.Add(1)
 				mu.Lock()
 				phases = append(phases, ph)
@@ -279,7 +324,7 @@ func TestC14(t *testing.T) {
 		_ = conn.Flush()
 		_ = conn.Close()
 		<-recvDone
-		sig := checkStream(r, desc, recvBuf.Bytes(), recs, phases, &heldTotal, &directTotal, &racingTotal, &markersSeen)
+		sig := checkStream(r, desc, startID, recvBuf.Bytes(), recs, phases, &heldTotal, &directTotal, &racingTotal, &markersSeen)
 		sigs[sig] = struct{}{}
 		r.Distinct(fmt.Sprintf("w=%d t=%d %s", nw, toggles, sig))
 		if r.WantSample() {
@@ -291,31 +336,22 @@ func TestC14(t *testing.T) {
 	r.Set("packets_racing_a_state_change", racingTotal)
 	r.Set("finish_markers_seen", markersSeen)
 	r.Set("overflow_cases", overflowCases)
+	r.Set("cases_entering_config_through_real_switchToConfigState", realSwitchCases)
+	r.Set("real_switchToConfigState_calls", realSwitches)
+	r.Set("StartUpdate_frames_seen_by_client", startsSeen)
+	r.Set("writes_that_failed_although_the_peer_accepts_everything", writeErrs)
 	r.Set("distinct_observation_signatures", len(sigs))
 }
 
 // checkStream is the offline checker over one run.
-func checkStream(r *lib.Run, desc map[string]any, stream []byte, recs []wrec, phases []phase, held, direct, racing, markers *int64) string {
-	items, ok := parseStream(stream)
+func checkStream(r *lib.Run, desc map[string]any, startID int, stream []byte, recs []wrec, phases []phase, held, direct, racing, markers *int64) string {
+	items, ok := parseStream(stream, startID)
 	if !ok {
 		r.Violation("client-stream-corrupt", "the client-side byte stream is not a sequence of whole frames", desc)
 		return "corrupt"
 	}
 	pos := map[[3]int][]int{} // (class, w, seq) -> positions
 	markPos := map[int]int{}
-	for i, it := range items {
-		if it.marker {
-			markPos[it.seq] = i
-			*markers++
-			continue
-		}
-		c := 0
-		if it.play {
-			c = 1
-		}
-		k := [3]int{c, it.w, it.seq}
-		pos[k] = append(pos[k], i)
-	}
 	wit := func(extra map[string]any) map[string]any {
 		errs := map[string]int{}
 		for _, rc := range recs {
@@ -328,6 +364,54 @@ func checkStream(r *lib.Run, desc map[string]any, stream []byte, recs []wrec, ph
 			m[k] = v
 		}
 		return m
+	}
+	// S (client's view): the client is in the configuration phase from the StartUpdate frame it
+	// reads until the finish marker; a play-only packet positioned in between reaches a client
+	// that cannot decode it, whatever the stamps of its write were
+	inCfg := -1
+	for i, it := range items {
+		switch {
+		case it.start:
+			inCfg = i
+			atomic.AddInt64(&startsSeen, 1)
+		case it.marker:
+			inCfg = -1
+		case it.play && inCfg >= 0:
+			r.Violation("play-packet-on-the-wire-between-StartUpdate-and-finish", fmt.Sprintf("play-only packet w%d#%d sits at stream position %d, after the StartUpdate at position %d and before the end of that configuration phase", it.w, it.seq, i, inCfg), wit(nil))
+		}
+	}
+	// E: the peer accepts every byte, nothing closes the connection and no queue overflows in
+	// these cases, so a write that reports an error was refused by Gate itself (a play-only
+	// packet handed to the configuration-state encoder instead of being held) and is lost
+	firstErr := wrec{Ret: -1}
+	for _, rc := range recs {
+		if rc.Err != "" && (firstErr.Ret < 0 || rc.Ret < firstErr.Ret) {
+			firstErr = rc
+		}
+	}
+	if firstErr.Ret >= 0 && desc["overflow"] != true {
+		atomic.AddInt64(&writeErrs, 1)
+		kind := "config-valid"
+		if firstErr.Play {
+			kind = "play-only"
+		}
+		r.Violation("write-refused-without-fault:"+kind, fmt.Sprintf("write of %s packet w%d#%d failed with %q although the peer accepts everything and nothing closed the connection", kind, firstErr.Writer, firstErr.Seq, firstErr.Err), wit(map[string]any{"write": firstErr}))
+	}
+	for i, it := range items {
+		if it.start {
+			continue
+		}
+		if it.marker {
+			markPos[it.seq] = i
+			*markers++
+			continue
+		}
+		c := 0
+		if it.play {
+			c = 1
+		}
+		k := [3]int{c, it.w, it.seq}
+		pos[k] = append(pos[k], i)
 	}
 	// L: loss / duplication
 	for _, rc := range recs {
